@@ -33,10 +33,19 @@ func runWipe(env *execenv.Env) error {
 		_ = env.Backend.Close()
 		return err
 	}
-	err = env.Backend.LocalConfig().RemoveAll("git-bug")
+	// the user identity is often the only git-bug configuration there is: removing
+	// a section that doesn't exist any more is an error for the config
+	remaining, err := env.Backend.LocalConfig().ReadAll("git-bug")
 	if err != nil {
 		_ = env.Backend.Close()
 		return err
+	}
+	if len(remaining) > 0 {
+		err = env.Backend.LocalConfig().RemoveAll("git-bug")
+		if err != nil {
+			_ = env.Backend.Close()
+			return err
+		}
 	}
 
 	storage := env.Backend.LocalStorage()
